@@ -227,13 +227,16 @@ func c18RunConfig(e *Enum, c c18Cfg) {
 	if c.Pass != "" {
 		want = append(want, "PASS "+c.Pass)
 	}
-	want = append(want, "NICK "+wantNick, "USER "+wantIdent+" 12 * :"+wantName)
+	want = append(want, "NICK "+wantNick, NormLine("USER "+wantIdent+" 12 * :"+wantName))
 	for cy := 0; cy < cycles; cy++ {
 		if errs[cy] != "<nil>" {
 			e.Fail(fam, "connect-error", in, fmt.Sprintf("connect %d failed: %s", cy+1, errs[cy]), c.params())
 			return
 		}
-		got := regLines[cy]
+		got := make([]string, len(regLines[cy]))
+		for i, l := range regLines[cy] {
+			got[i] = NormLine(l) // spelling the protocol leaves open (USER's mode fields, CAP LS version) is not judged
+		}
 		if strings.Join(got, "\n") != strings.Join(want, "\n") {
 			e.Fail(fam, "registration-lines", in, fmt.Sprintf("connect %d: first lines %s, want %s", cy+1, joinQ(got), joinQ(want)), c.params())
 		}
@@ -398,7 +401,7 @@ func c18RunPings(e *Enum, sc c18Script, byLine map[string]string) bool {
 	var got []string
 	for _, l := range wire {
 		if c18Cmd(l) == "PONG" {
-			got = append(got, l)
+			got = append(got, NormLine(l))
 		}
 	}
 	want := c18Expect(sc, byLine)
